@@ -963,9 +963,14 @@ class Engine:
                 for s2, (v, av, b) in zip(states, feas):
                     if v is None:
                         others = set((1 - x) if flip else x for x in vals)
-                        if isb and others == {0}:
+                        boolish = isb or (isinstance(d, tuple) and d and d[0] == "bin" and d[1] in CMP)
+                        if boolish and others == {0}:
                             s2.tagfacts[atom] = 1
                             s2.pc.append((d, True, "branch"))
+                        elif boolish and others == {1}:
+                            # the discriminant of a lazily conditional Option (`checked_sub`, `get`, ..) is its condition: "not Some" is "false"
+                            s2.tagfacts[atom] = 0
+                            s2.pc.append((d, False, "branch"))
                         else:
                             prev = s2.tagfacts.get(atom)
                             if isinstance(prev, tuple):
@@ -1421,7 +1426,8 @@ def some_payload(o):
 
 def _frp(t):
     """(ptr, n) when t is a slice built by from_raw_parts(_mut)(ptr, n)"""
-    if isinstance(t, tuple) and t and t[0] == "call" and (t[2] or "").endswith(("slice::from_raw_parts", "slice::from_raw_parts_mut")) and len(t[3]) == 2:
+    if isinstance(t, tuple) and t and t[0] == "call" and (t[2] or "").endswith(("slice::from_raw_parts", "slice::from_raw_parts_mut", "ptr::slice_from_raw_parts",
+                                                                                 "ptr::slice_from_raw_parts_mut")) and len(t[3]) == 2:
         return t[3][0], t[3][1]
     return None
 
@@ -2638,16 +2644,23 @@ def _m_iter_next(eng, st, callee, args, ev):
                     st.bonus += 1        # constant-length slice: the iteration's existence is decided by constants
                 elem = ("ref", ("I", b0, mk_bin("Add", lo0, pos, "usize")))
                 return mk_optif(mk_bin("Lt", pos, ln, "usize"), ("agg", "tuple", None, None, ("0", "1"), (cnt, elem)))
+        copied = v[0] == "agg" and v[1] == "adt" and v[2] == "core::iter::adapters::copied::Copied" and v[5][0][2] == "core::slice::iter::Iter"
+        if copied:
+            outer, v = v, v[5][0]
         if v[0] == "agg" and v[1] == "adt" and v[2] == "core::slice::iter::Iter":
             pos, x = v[5][0], v[5][1]
             sp = slice_parts(eng, st, x)
             if sp is not None:
                 b0, lo0, hi0 = sp
                 ln = mk_bin("Sub", hi0, lo0, "usize")
-                eng.write(st, r[1], v[:5] + ((mk_bin("Add", pos, C(1, "usize"), "usize"), x),) + v[6:])
+                v2 = v[:5] + ((mk_bin("Add", pos, C(1, "usize"), "usize"), x),) + v[6:]
+                eng.write(st, r[1], (outer[:5] + ((v2,),) + outer[6:]) if copied else v2)
                 if is_c(pos) and is_c(ln) and pos[1] < ln[1]:
                     st.bonus += 1
-                return mk_optif(mk_bin("Lt", pos, ln, "usize"), ("ref", ("I", b0, mk_bin("Add", lo0, pos, "usize"))))
+                eloc = ("I", b0, mk_bin("Add", lo0, pos, "usize"))
+                return mk_optif(mk_bin("Lt", pos, ln, "usize"), eng.read(st, eloc) if copied else ("ref", eloc))
+            if copied:
+                return NotImplemented
     return _m_range_next(eng, st, callee, args, ev)
 
 
@@ -2739,6 +2752,44 @@ def _m_copy_nonoverlapping(eng, st, callee, args, ev):
     return UNIT
 
 
+def _m_ptr_same(eng, st, callee, args, ev):
+    """`p.cast_const()` / `p.cast_mut()`: the same pointer (mutability is a type-level matter)"""
+    return args[0] if len(args) == 1 else NotImplemented
+
+
+def _m_copied(eng, st, callee, args, ev):
+    """`iter.copied()` / `.cloned()` over a slice iterator of a Copy element type: the same iteration, yielding the elements by value"""
+    it = args[0]
+    if it[0] == "agg" and it[1] == "adt" and it[2] == "core::slice::iter::Iter":
+        return ("agg", "adt", "core::iter::adapters::copied::Copied", "Copied", ("it",), (it,), 0)
+    return NotImplemented
+
+
+def _m_cast_sign(eng, st, callee, args, ev):
+    """uN::cast_signed / iN::cast_unsigned: the same-width reinterpreting cast (`as`)"""
+    ty = _int_self(callee)
+    if ty is None or len(args) != 1:
+        return NotImplemented
+    dst = ("i" if ty.startswith("u") else "u") + ty[1:]
+    if callee.get("name") not in ("cast_signed", "cast_unsigned") or dst not in INT_BITS:
+        return NotImplemented
+    return mk_cast("IntToInt", args[0], ty, dst)
+
+
+def _m_ptr_addr(eng, st, callee, args, ev):
+    """`p.addr()` is the address of `p`: what `p as usize` denotes (provenance is not modelled)"""
+    if len(args) != 1:
+        return NotImplemented
+    return ("cast", "PointerExposeProvenance", args[0], "*const u8", "usize")
+
+
+def _m_offset_from_unsigned(eng, st, callee, args, ev):
+    """`a.offset_from_unsigned(b)` on byte pointers is the address difference (its precondition a >= b is the caller's)"""
+    if len(args) != 2 or (callee.get("args") or [None])[0] not in ("u8", "i8"):
+        return NotImplemented
+    return mk_bin("Sub", args[0], args[1], "usize")
+
+
 def _m_offset_from(eng, st, callee, args, ev):
     """`a.offset_from(b)` on byte pointers is the address difference (element size 1)"""
     if len(args) != 2 or (callee.get("args") or [None])[0] not in ("u8", "i8"):
@@ -2791,6 +2842,13 @@ SLICE_MODELS = {
     "core::ptr::write": _m_ptr_write,
     "std::ptr::copy_nonoverlapping": _m_copy_nonoverlapping,
     "std::ptr::mut_ptr::<impl *mut T>::offset_from": _m_offset_from, "core::ptr::mut_ptr::<impl *mut T>::offset_from": _m_offset_from,
+    "std::ptr::mut_ptr::<impl *mut T>::offset_from_unsigned": _m_offset_from_unsigned, "core::ptr::mut_ptr::<impl *mut T>::offset_from_unsigned": _m_offset_from_unsigned,
+    "std::ptr::const_ptr::<impl *const T>::offset_from_unsigned": _m_offset_from_unsigned, "core::ptr::const_ptr::<impl *const T>::offset_from_unsigned": _m_offset_from_unsigned,
+    "std::ptr::mut_ptr::<impl *mut T>::cast_const": _m_ptr_same, "core::ptr::mut_ptr::<impl *mut T>::cast_const": _m_ptr_same,
+    "std::ptr::const_ptr::<impl *const T>::cast_mut": _m_ptr_same, "core::ptr::const_ptr::<impl *const T>::cast_mut": _m_ptr_same,
+    "core::iter::traits::iterator::Iterator::copied": _m_copied, "core::iter::traits::iterator::Iterator::cloned": _m_copied,
+    "std::ptr::mut_ptr::<impl *mut T>::addr": _m_ptr_addr, "core::ptr::mut_ptr::<impl *mut T>::addr": _m_ptr_addr,
+    "std::ptr::const_ptr::<impl *const T>::addr": _m_ptr_addr, "core::ptr::const_ptr::<impl *const T>::addr": _m_ptr_addr,
     "std::ptr::const_ptr::<impl *const T>::offset_from": _m_offset_from, "core::ptr::const_ptr::<impl *const T>::offset_from": _m_offset_from,
     "core::ptr::copy_nonoverlapping": _m_copy_nonoverlapping,
     "std::intrinsics::copy_nonoverlapping": _m_copy_nonoverlapping,
@@ -2869,6 +2927,8 @@ for _t in ("u8", "i8", "u16", "i16", "u32", "i32", "u64", "i64", "u128", "i128",
     MODELS["core::num::<impl %s>::leading_zeros" % _t] = _m_leading_zeros
     MODELS["core::num::<impl %s>::wrapping_neg" % _t] = _m_wrapping_neg
     MODELS["core::num::<impl %s>::swap_bytes" % _t] = _m_swap_bytes
+    MODELS["core::num::<impl %s>::cast_signed" % _t] = _m_cast_sign
+    MODELS["core::num::<impl %s>::cast_unsigned" % _t] = _m_cast_sign
     MODELS["core::num::<impl %s>::to_ne_bytes" % _t] = _m_to_ne_bytes
     MODELS["core::num::<impl %s>::from_le" % _t] = _m_from_le_be
     MODELS["core::num::<impl %s>::from_be" % _t] = _m_from_le_be
